@@ -83,7 +83,7 @@ func TestPropRoundTrip(t *testing.T) {
 		if nk > 0 {
 			cls = append(cls, "children")
 		}
-		stats.Case(nt, stats.Digest(fmt.Sprintf("%#v", v)), cls...)
+		stats.Case(nt, stats.Digest(cfg.Render(v)), cls...)
 		if nt && stats.WantSample() {
 			stats.Sample(summary(v))
 		}
@@ -201,7 +201,7 @@ func TestPropDiffMerge(t *testing.T) {
 				cls = append(cls, c)
 			}
 		}
-		stats.Case(nt, stats.Digest(fmt.Sprintf("%#v|%#v", a, prev)), cls...)
+		stats.Case(nt, stats.Digest(cfg.Render(a), cfg.Render(prev)), cls...)
 		if nt && stats.WantSample() {
 			stats.Sample(map[string]any{"before": summary(a), "after_last_step": summary(prev), "steps": steps, "classes": cls})
 		}
